@@ -18,7 +18,8 @@ def run(tier, seed):
         res.report = verify(graph_c.targets_c10(), timeout_s=30 if tier == 'quick' else 120)
     except ImportError:
         res.report = None
-    res.bounded = [graph_drv.transforms_part(tier, seed), graph_drv.cells_part(tier)]
+    from vk.common import guarded_parts
+    res.bounded = guarded_parts(res, lambda: graph_drv.transforms_part(tier, seed), lambda: graph_drv.cells_part(tier))
     res.assumptions = ['substitute, resolve_tlib_cells, copy and pickle are bounded only; the selection of the forks (guards of the loop) and the iteration over a snapshot of the fork table are not part of the proved block', 'bounded over circuits / pin subsets; complete over input valuations (z3)', 'spec.evaln + the hierarchical instance semantics of bounded.graph_drv.HierEval are the oracle']
     res.trusted_base = ['pyvc', 'bounded/graph_drv.py', 'spec/evaln.py', 'z3 5.1.0']
     return res
